@@ -219,6 +219,27 @@ def admissibleP (f : Path) (B : Bytes) : FS → List Op → Bool
      | .rename s d => !isKeyPath s && ((d == f && fs.files s == some B) || !isKeyPath d))
     && admissibleP f B (fs.step op) rest
 
+/-! ## layout detection (`directory_split="auto"`, reusable.py:128-141)
+
+A later process opened with the default arguments looks at *one* entry directly below the cache
+directory (`next(path.glob("*"))`, listing order unspecified): a sub-directory means the split
+layout, a regular file the flat one, nothing means split. -/
+
+/-- what `"auto"` may conclude about the directory -/
+def autoMayBe (fs : FS) (split : Bool) : Prop :=
+  if split then (∃ n, fs.dirs [n] = true) ∨ ((∀ n, fs.dirs [n] = false) ∧ ∀ n, fs.files [n] = none)
+  else ∃ n, (fs.files [n]).isSome = true
+
+/-- a writer in the split layout never puts a regular file directly below the cache directory,
+    one in the flat layout never makes a sub-directory (per-call check) -/
+def rootClean (split : Bool) : Op → Bool
+  | .create p => !split || p.length != 1
+  | .rename _ d => !split || d.length != 1
+  | .mkdir p => split || p == []
+  | _ => true
+
+def layoutOK (split : Bool) (ops : List Op) : Bool := ops.all (rootClean split)
+
 /-! ## a finite file system for the driver / concrete examples -/
 
 def FS.ofList (files : List (Path × Bytes)) (dirs : List Path) : FS :=
